@@ -22,3 +22,23 @@ func VH_C02_window() {
 	zzverif.Assert(ok, "C02/window-proven-or-young")
 	zzverif.Cover("C02/window-reached")
 }
+
+// VH_C02_chunk: the chunk index the chain challenges a prover with after a successful proof exists in the
+// file, for every file size, at every height and gas reading, whatever the seeded generator returns
+// (A-RAND: Int63n(n) is in [0, n)). Real ResetChunkWithProof (the code SetProven / Prove run) and
+// ResetChunk's own copy of the arithmetic are the same lines; the chunk size is case-split over a grid
+// (FileSize / chunkSize with both symbolic is beyond the solvers).
+func VH_C02_chunk() {
+	grid := []int64{1, 2, 3, 1000, 1024, 10240, 1 << 30}
+	chunk := grid[zzverif.NondetLen("chunk.grid", 0, len(grid)-1)]
+	size := zzverif.NondetRange("filesize", 1, 1<<62)
+	f := UnifiedFile{FileSize: size, Start: 0, ProofInterval: 10}
+	p := FileProof{ChunkToProve: zzverif.NondetRange("old.chunk", 0, 1<<40)}
+	ctx := zzverif.Ctx(zzverif.NondetRange("height", 0, 1<<40), zzverif.NondetTime("blocktime"), zzverif.NondetUint64("blockgas"))
+	err := f.ResetChunkWithProof(ctx, &p, chunk)
+	zzverif.Assert(err == nil, "C02/chunk-reset-never-fails")
+	zzverif.Assert(p.ChunkToProve >= 0, "C02/challenged-chunk-index-non-negative")
+	// chunk i covers bytes [i*chunk, (i+1)*chunk): it exists iff i*chunk < size
+	zzverif.Assert(zzverif.ZOf(p.ChunkToProve).Mul(zzverif.ZOf(chunk)).Lt(zzverif.ZOf(size)), "C02/challenged-chunk-exists-in-the-file")
+	zzverif.Cover("C02/chunk-reset-reached")
+}
